@@ -370,6 +370,10 @@ pub trait Monitor {
 
 pub fn run(args: &Args, mon: &mut dyn Monitor) {
     install_panic_hook();
+    // A runaway in the code under test must die by an attributed abort instead of exhausting the
+    // machine: no single request above 1 GiB, no more than `live_ceiling_mb` (default 3 GiB) live.
+    crate::alloc::set_ceiling(1 << 30);
+    crate::alloc::set_live_ceiling((args.p_u64("live_ceiling_mb", 3072) as usize) << 20);
     let journal = Journal::open(&args.journal);
     let mut rep = Report::new(args);
     let stream = fnv(args.cmd.as_bytes());
